@@ -89,7 +89,7 @@ func specSized(m protoreflect.Message) bool { return true }
 
 // Table invariant of protoiface.Methods.Size: by definition it recomputes (and caches) the sizes.
 func fieldcontract_Methods_Size(in protoiface.SizeInput) (out protoiface.SizeOutput) {
-	ensuresTrusted(specSized(in.Message))
+	ensuresTrusted(imp(in.Flags&protoiface.MarshalUseCachedSize == 0, specSized(in.Message))) // only an uncached Size pass recomputes
 	return
 }
 
